@@ -20,6 +20,10 @@ import (
 type eqctx struct {
 	visited map[[2]uintptr]bool
 	depth   int
+	// sharing (reference mode): pointers to structs, slices and maps that were one object must come back
+	// as one object, and distinct ones as distinct objects
+	sharing  bool
+	a2b, b2a map[uintptr]uintptr
 }
 
 func isNilLike(v reflect.Value) bool {
@@ -168,6 +172,23 @@ func (c *eqctx) eq(a, b reflect.Value, path string) string {
 				return fmt.Sprintf("%s: nil-ness %v vs %v", path, an, bn)
 			}
 			return ""
+		}
+		if c.sharing {
+			switch k := a.Elem().Kind(); {
+			case (k == reflect.Struct && t.Elem() != timeType && t.Elem() != bigIntType && t.Elem() != bigFloatType && t.Elem() != bigRatType && a.Elem().NumField() > 0) ||
+				k == reflect.Map || (k == reflect.Slice && a.Elem().Len() > 0):
+				if c.a2b == nil {
+					c.a2b, c.b2a = map[uintptr]uintptr{}, map[uintptr]uintptr{}
+				}
+				pa, pb := a.Pointer(), b.Pointer()
+				if prev, ok := c.a2b[pa]; ok && prev != pb {
+					return fmt.Sprintf("%s: sharing lost: a pointer that occurred before came back as a different object", path)
+				}
+				if prev, ok := c.b2a[pb]; ok && prev != pa {
+					return fmt.Sprintf("%s: sharing invented: two distinct pointers came back as one object", path)
+				}
+				c.a2b[pa], c.b2a[pb] = pb, pa
+			}
 		}
 		key := [2]uintptr{a.Pointer(), b.Pointer()}
 		if c.visited[key] {
